@@ -249,6 +249,14 @@ REPLAY_LOCK = threading.Lock()
 
 
 def replay(h, scratch, target_dir, prop):
+    if os.environ.get("VERIF_NO_REPLAY"):
+        # used only by runner/mutants.py (detection matrix): report on the solver verdict
+        rdir = os.path.join(VERIF, "replays", prop)
+        os.makedirs(rdir, exist_ok=True)
+        rpath = os.path.join(rdir, h["name"] + ".rs")
+        with open(rpath, "w") as fh:
+            fh.write("// replay skipped (VERIF_NO_REPLAY): solver verdict only\n")
+        return True, rpath, ["replay skipped (VERIF_NO_REPLAY)"]
     # playback keeps the full trace in memory (tens of GB for harnesses with long
     # unwound loops): one at a time
     with REPLAY_LOCK:
